@@ -287,6 +287,7 @@ def _deepcopy(it, v, memo=None):
         return r
     if isinstance(v, Row):
         r = Row(v.dom, v.val, name=(v.name or 'row') + '_dc')
+        r.deep_copy_of = v       # (T3: equal and DISJOINT, nested values included -- which dict(row) / row.copy() do not give)
         it.assumptions.add('deepcopy of a row copies scalar cells; nested objects in cells are treated as immutable')
         return r
     if isinstance(v, Tree):
@@ -334,6 +335,11 @@ def _re_escape(it, s):
 
 
 def _deque(it, src=None, maxlen=None):
+    if src is None and maxlen is None:
+        # an unbounded empty deque used as a FIFO (append / popleft): a list
+        q = PyList()
+        q.is_deque = True
+        return q
     if isinstance(maxlen, int) and not isinstance(maxlen, bool) and maxlen >= 0 and src is not None:
         # deque(iterable, maxlen=k) consumes the whole iterable whatever k is (it keeps the last k items, opaque here)
         if isinstance(src, Stream):
@@ -505,10 +511,12 @@ def external_module(it, dotted):
         a.update(deque=Builtin('collections.deque', _deque), namedtuple=Builtin('namedtuple', _namedtuple),
                  OrderedDict=Builtin('collections.OrderedDict', lambda it, *args: lib._b_dict(it, *args)))
         abc = ModuleV('collections.abc')
-        abc.attrs['Iterable'] = T('Iterable')
+        for _n in ('Iterable', 'Sized', 'Collection', 'Sequence', 'Mapping', 'Iterator', 'Generator'):
+            abc.attrs[_n] = T(_n)
         a['abc'] = abc
     elif dotted == 'collections.abc':
-        a['Iterable'] = T('Iterable')
+        for _n in ('Iterable', 'Sized', 'Collection', 'Sequence', 'Mapping', 'Iterator', 'Generator'):
+            a[_n] = T(_n)
     elif dotted == 'itertools':
         a.update(chain=Builtin('itertools.chain', _chain), islice=Builtin('itertools.islice', _islice),
                  zip_longest=Builtin('itertools.zip_longest', lambda it, *srcs: lib.ZipLongestSource(it, list(srcs))))
